@@ -1085,6 +1085,25 @@ func (x *Exec) runNode(fr *frameRun, n *xnode) error {
 				return err
 			}
 			ct := c.C[0]
+			// path-sensitive folding: under the literals of the current path condition the
+			// branch condition may already be decided (e.g. a value defined by a conditional
+			// postcondition whose condition this path has taken)
+			if !ct.IsConst() {
+				lits, nlits := map[int]bool{}, map[int]bool{}
+				for _, l := range conjuncts(x.full(st), nil) {
+					lits[l.id] = true
+					if l.Op == "not" {
+						nlits[l.Args[0].id] = true
+					} else {
+						nlits[tb.Not(l).id] = true
+					}
+				}
+				if len(lits) > 0 && len(lits) < 400 {
+					if r := tb.RewriteUnder(ct, lits, nlits, map[int]*Term{}); r.IsConst() {
+						ct = r
+					}
+				}
+			}
 			for k, e := range n.succs {
 				cond := ct
 				if k == 1 {
